@@ -71,3 +71,71 @@ def with_(sc, **kw):
     s = copy.deepcopy(sc)
     s.update(kw)
     return s
+
+
+REQS = {
+    "A2": [[A("A", 2)]],
+    "A3": [[A("A", 3)]],
+    "A2|A2": [[A("A", 2)], [A("B", 2)]],
+    "A2|M3/2": [[A("A", 2)], [M("M", 3, 2)]],
+    "M3/1|A1": [[M("M", 3, 1)], [A("A", 1)]],
+    "M3/2": [[M("M", 3, 2)]],
+    "M4/2": [[M("M", 4, 2)]],
+    "A3|M2/2": [[A("A", 3)], [M("M", 2, 2)]],
+    "A1|M2/1|A1": [[A("A", 1)], [M("M", 2, 1)], [A("B", 1)]],
+    "sM3/2|A1": [[M("M", 3, 2, stars=1)], [A("A", 1)]],
+    "dM3/2|A1": [[M("M", 3, 2, stars=2)], [A("A", 1)]],
+}
+
+DISTS = {
+    "none": [],
+    "cancel0": [[cancel(rid("A", 0))]],
+    "cancelM0": [[cancel(rid("M", 0))]],
+    "cancelM1": [[cancel(rid("M", 1))]],
+    "cancel0+cancel1": [[cancel(rid("A", 0))], [cancel(rid("A", 1))]],
+    "cgroupA": [[cgroup("A")]],
+    "cgroupM": [[cgroup("M")]],
+    "call": [[CALL]],
+    "flush": [[FLUSH]],
+    "gac": [[GAC]],
+    "cancel0+flush": [[cancel(rid("A", 0))], [FLUSH]],
+    "cancel0+flush+flush": [[cancel(rid("A", 0))], [FLUSH], [FLUSH]],
+    "cancel0+cancel1+flush": [[cancel(rid("A", 0))], [cancel(rid("A", 1))], [FLUSH]],
+    "call+flush": [[CALL], [FLUSH]],
+    "cgroupA+gac": [[cgroup("A")], [GAC]],
+    "cgroupM+gac": [[cgroup("M")], [GAC]],
+    "lock+gac": [[LOCK], [GAC]],
+    "flush+gac": [[FLUSH], [GAC]],
+}
+
+CBK = {
+    "nocb": dict(),
+    "plain": dict(ecb="plain", ccb="plain"),
+    "coro": dict(ecb="coro", ccb="coro"),
+    "partial": dict(ecb="partial", ccb="apartial"),
+    "slowccb": dict(ecb="plain", ccb="slow", slow_ids=[0, 1]),
+    "slowecb": dict(ecb="slow", ccb="coro", slow_ids=[0]),
+    "slowecb1": dict(ecb="slow", ccb="plain", slow_ids=[1]),
+}
+
+
+def grid(monitors, sizes, reqs, dists, cbs, outs, prefix="", skip=None, **extra):
+    out = []
+    for size in sizes:
+        for rn in reqs:
+            for dn in dists:
+                needs = [x for x in ("A", "M") if (x + "0" in dn or x + "1" in dn or "group" + x in dn)]
+                if "cancel0" in dn or "cancel1" in dn:
+                    needs.append("A")
+                if any(n == "A" and "A" not in rn or n == "M" and "M" not in rn for n in needs):
+                    continue
+                if "cancel1" in dn and ("A1" in rn):
+                    continue
+                for cn in cbs:
+                    for o in outs:
+                        nm = f"{prefix}s{size} {rn} {dn} {cn} {'/'.join(o)}"
+                        if skip and skip(size, rn, dn, cn, o):
+                            continue
+                        sc = scen(pool(size), REQS[rn] + DISTS[dn], outcomes=list(o), **CBK[cn], **extra)
+                        out.append(cell(nm, sc, monitors))
+    return out
